@@ -241,6 +241,10 @@ def _objarr(x):
         return x.astype(object)
     if isinstance(x, (list, tuple)):
         return numpy.asarray(_plainify(x), dtype=object)
+    if _is_symbolic(x):
+        a = numpy.empty((), dtype=object)      # a 0-d box: symbolic scalars define __array_ufunc__ themselves
+        a[()] = x
+        return a
     return x
 
 
